@@ -25,6 +25,8 @@ thread_local! {
     static READS: Cell<u64> = const { Cell::new(0) };
     static SIM_FDS: Cell<bool> = const { Cell::new(false) };
     static TICK_NS: Cell<u64> = const { Cell::new(0) };
+    /// what the wall clock (CLOCK_REALTIME, gettimeofday, time) is ahead of / behind the monotonic one
+    static RT_OFFSET_NS: Cell<i64> = const { Cell::new(0) };
 }
 
 pub mod clock {
@@ -43,6 +45,7 @@ pub mod clock {
                 NOW_NS.with(|n| n.set(EPOCH_NS));
                 READS.with(|r| r.set(0));
                 TICK_NS.with(|t| t.set(0));
+                RT_OFFSET_NS.with(|t| t.set(0));
                 SIM_FDS.with(|s| s.set(false));
             }
             d.set(d.get() + 1);
@@ -68,6 +71,17 @@ pub mod clock {
     /// let simulated time pass
     pub fn advance(ns: u64) {
         NOW_NS.with(|n| n.set(n.get().saturating_add(ns)));
+    }
+
+    /// the wall clock is stepped (by an administrator, NTP, a VM restore): it jumps forwards or
+    /// backwards while the monotonic clock runs on
+    pub fn step_realtime(ns: i64) {
+        RT_OFFSET_NS.with(|t| t.set(t.get().saturating_add(ns)));
+    }
+
+    pub(super) fn realtime_of(mono_ns: u64) -> u64 {
+        let off = RT_OFFSET_NS.with(|t| t.get());
+        (mono_ns as i128 + off as i128).max(1_000_000_000) as u64
     }
 
     /// simulated time that passes with every call on a scripted stream from now on (a slow peer)
@@ -116,7 +130,10 @@ mod interpose {
     #[no_mangle]
     pub unsafe extern "C" fn clock_gettime(clk: libc::clockid_t, ts: *mut libc::timespec) -> libc::c_int {
         if clock::active() && !ts.is_null() {
-            let ns = clock::read_ns();
+            let mut ns = clock::read_ns();
+            if clk == libc::CLOCK_REALTIME || clk == libc::CLOCK_REALTIME_COARSE {
+                ns = clock::realtime_of(ns);
+            }
             (*ts).tv_sec = (ns / 1_000_000_000) as libc::time_t;
             (*ts).tv_nsec = (ns % 1_000_000_000) as _;
             return 0;
@@ -127,7 +144,7 @@ mod interpose {
     #[no_mangle]
     pub unsafe extern "C" fn gettimeofday(tv: *mut libc::timeval, tz: *mut libc::c_void) -> libc::c_int {
         if clock::active() && !tv.is_null() {
-            let ns = clock::read_ns();
+            let ns = clock::realtime_of(clock::read_ns());
             (*tv).tv_sec = (ns / 1_000_000_000) as libc::time_t;
             (*tv).tv_usec = ((ns % 1_000_000_000) / 1_000) as _;
             return 0;
@@ -138,7 +155,7 @@ mod interpose {
     #[no_mangle]
     pub unsafe extern "C" fn time(t: *mut libc::time_t) -> libc::time_t {
         let secs = if clock::active() {
-            (clock::read_ns() / 1_000_000_000) as libc::time_t
+            (clock::realtime_of(clock::read_ns()) / 1_000_000_000) as libc::time_t
         } else {
             let mut ts = libc::timespec { tv_sec: 0, tv_nsec: 0 };
             libc::syscall(libc::SYS_clock_gettime, libc::CLOCK_REALTIME as libc::c_long, &mut ts as *mut libc::timespec);
